@@ -24,6 +24,8 @@ use std::os::unix::io::RawFd;
 use tokio::io::unix::AsyncFd;
 
 use crate::{addr::NetAddr, udp};
+#[cfg(erbium_verif)]
+use crate::sim::{nix, tokio};
 use nix::libc;
 
 pub type Error = std::io::Error;
